@@ -26,7 +26,12 @@ pub fn bdd_cfg(u: &mut Unstructured, max_n0: u8) -> Result<BddCfg> {
 }
 
 pub fn bop(u: &mut Unstructured) -> Result<BOp> {
-    Ok(match u.arbitrary::<u8>()? % 18 {
+    let sel = u.arbitrary::<u8>()?;
+    if sel >= 248 {
+        // the top selector values (they used to fold onto the arms below): sibling operations on one (f, v, g)
+        return Ok(BOp::Siblings(u.arbitrary()?, u.arbitrary()?, u.arbitrary()?, u.arbitrary()?));
+    }
+    Ok(match sel % 18 {
         0 | 1 => BOp::Lit(u.arbitrary()?, u.arbitrary()?),
         2 => {
             let x: u8 = u.arbitrary()?;
@@ -169,7 +174,11 @@ pub fn vtree_case(u: &mut Unstructured, max_k: u8) -> Result<VtreeCase> {
 }
 
 pub fn sop(u: &mut Unstructured, ite_family: bool) -> Result<SOp> {
-    Ok(match u.arbitrary::<u8>()? % if ite_family { 19 } else { 10 } {
+    let sel = u.arbitrary::<u8>()?;
+    if sel >= 248 {
+        return Ok(SOp::Siblings(u.arbitrary()?, u.arbitrary()?, u.arbitrary()?, u.arbitrary()?, ite_family));
+    }
+    Ok(match sel % if ite_family { 19 } else { 10 } {
         0 | 1 => SOp::Lit(u.arbitrary()?, u.arbitrary()?),
         2 => SOp::Const(u.arbitrary()?),
         3 => SOp::Not(u.arbitrary()?),
